@@ -58,7 +58,7 @@ YKinds == {"bytes", "hash", "random", "zero"}
 YVal(kind) == CASE kind = "bytes" -> PConst(3) [] kind = "hash" -> PAtom("yh") [] kind = "random" -> PAtom("yr") [] kind = "zero" -> PZero
 
 \* ------------------------------------------------------------ adversary: one component perturbed
-Perts == {"none", "u_add", "u_neg", "u_id", "v_add", "v_neg", "v_id", "uv_id", "y_other", "y_zero", "msg", "pk_other", "pk_neg", "pk_id", "label", "forge_v_id"}
+Perts == {"none", "u_add", "u_neg", "u_id", "v_add", "v_neg", "v_id", "uv_id", "y_other", "y_zero", "msg", "pk_other", "pk_neg", "pk_id", "label", "forge_v_id", "pop_as_sig"}
 TsPerts == {"none", "u_add", "u_id", "v_add", "v_neg", "v_id", "msg", "pk_other", "pk_id", "label", "ts_past", "ts_future", "ts_zero", "ts_max"}
 
 \* ------------------------------------------------------------ system
@@ -74,8 +74,11 @@ Init == phase = "idle" /\ ses = NoSes /\ clock = T0 /\ last = Quiet
 \* interactive protocol: one transition per protocol run + adversary move + verification
 APok(k, s, mr, yk, pert) ==
   /\ phase = "idle"
-  /\ LET pk == PkOf(k)   m == DenMsg(mr)
-         sig == Sign(SkOf(k), s, m).v
+  /\ LET pk == PkOf(k)
+         \* pop_as_sig: the prover holds only the signer's proof of possession and presents it as a signature of
+         \* scheme s over the public-key bytes (the message a proof of possession is computed over)
+         m == IF pert = "pop_as_sig" THEN <<EncK(pk)>> ELSE DenMsg(mr)
+         sig == IF pert = "pop_as_sig" THEN PopProve(SkOf(k)).v ELSE Sign(SkOf(k), s, m).v
          u == Commit(s, pk, m)
          y == YVal(yk)
          f == Finalize(u, PAtom("x"), y, sig)
